@@ -1,7 +1,988 @@
-// Engine `master`; filled in by a later step.
-use super::Script;
+// Engine `master` (C15, C16): the PRODUCTION master task (master::task::MasterTask with its
+// MasterSession, Association, tasks/*, request.rs, extract.rs) over PhysLayer::Mock, created
+// exactly as the repository's own test harness does (master/tests/harness/mod.rs).  Under
+// cfg(test) the transport layer is the mock: every queued read is one whole APPLICATION fragment,
+// every write is one whole application fragment.
+//
+// Channel emulation.  In production a MasterTask is driven by a connection loop (tcp/serial):
+// `wait_for_enabled` / connect / `run(io)` / on error wait and reconnect, calling
+// `process_next_message` while there is no connection.  The runner below is that loop with the
+// connection attempts replaced by two flags: the master is connected iff it is enabled and the
+// script says the link is up (`drop_io` makes the mock return a read error and takes the link
+// down, `connect` brings it up again and the runner creates a fresh mock).
+//
+// Observations.  Everything goes through the ordered, time stamped trace of hook H5
+// (util::verif_trace): fragments handed to the mock transport writer are recorded by the hook
+// itself (`<t> tx <dest> <hex>`), the ReadHandler / AssociationInformation callbacks, the promise
+// completions and the channel events are added here.  After every op the harness SETTLES: it
+// awaits tokio::time::sleep(1 ms) under the paused clock (so every op costs exactly 1 ms of
+// virtual time, the model charges the same) and then yields a few times so that a deadline that
+// expires at exactly the same instant is handled by the master before the next stimulus is
+// applied.  The lines of one op are printed in their true order, except that promise completions
+// (`res`), which are observed by a waiter task, are moved to the end of the op's group.
+//
+// Script (cfg keys: timeout=<ms> (1000), disable_unsol / enable_unsol=<mask of classes 1..3>
+// (0), integrity=<mask bit0=class0 bit1..3=class1..3> (0), retry_min / retry_max=<ms>,
+// maxq=<n>, txsize=<n>, decode=<0..3>):
+//   rx <from> <hex> <ok|bad> <item>...   one received fragment, stamped (H6) with source <from>;
+//                                        <ok|bad> and the items are the generator's claim of
+//                                        what the real parser says about the object section and
+//                                        of what extract_measurements delivers; the harness
+//                                        prints the REAL verdict (`pv`) and the REAL callbacks
+//   sleep <ms>
+//   user <tok> read class:<mask> | read hdr:<hex of object headers>
+//   user <tok> sbo|do <hdr>...           hdr = <g>.<v>/<8|16>/<idx>=<hex of the object>,...
+//   user <tok> deadband <hdr>...         same header syntax with 34.1 / 34.2 / 34.3
+//   user <tok> cold_restart | warm_restart | link_status
+//   user <tok> empty <fc> hdr:<hex>
+//   disable | enable | drop_io | connect | remove | shutdown
+
+use super::{decode_level, hex, unhex, Script};
+use crate::app::measurement::*;
+use crate::app::parse::options::ParseOptions;
+use crate::app::parse::parser::ParsedFragment;
+use crate::app::parse::traits::FixedSize;
+use crate::app::variations::*;
+use crate::app::{
+    BufferSize, FunctionCode, QualifierCode, ResponseHeader, RetryStrategy, Timeout, Timestamp,
+};
+use crate::link::header::{FrameInfo, FrameType};
+use crate::link::reader::LinkModes;
+use crate::link::EndpointAddress;
+use crate::master::AssociationConfig;
+use crate::master::{CommandError, CommandResponseError, TaskError, WriteError};
+use crate::master::messages::{AssociationMsg, AssociationMsgType, MasterMsg, Message};
+use crate::master::promise::Promise;
+use crate::master::task::MasterTask;
+use crate::master::tasks::command::CommandTask;
+use crate::master::tasks::deadbands::WriteDeadBandsTask;
+use crate::master::tasks::empty_response::EmptyResponseTask;
+use crate::master::tasks::read::SingleReadTask;
+use crate::master::tasks::restart::{RestartTask, RestartType};
+use crate::master::tasks::Task;
+use crate::master::{
+    AssociationHandler, AssociationInformation, Classes, CommandBuilder, CommandHeaders,
+    CommandMode, CommandSupport, DeadBandHeader, EventClasses, HeaderInfo, Headers,
+    MasterChannelConfig, ReadHandler, ReadHeader, ReadRequest, ReadType, TaskType,
+};
+use crate::transport::FragmentAddr;
+use crate::util::phys::{PhysAddr, PhysLayer};
+use crate::util::session::{Enabled, RunError, StopReason};
+use crate::util::verif_trace as vt;
+use std::cell::RefCell;
+use std::rc::Rc;
+use std::time::Duration;
+
+fn log(line: String) {
+    vt::log(line);
+}
+
+// ---------------------------------------------------------------------------------------------
+// callbacks
+
+fn time_text(t: Option<Time>) -> String {
+    match t {
+        None => "n".to_string(),
+        Some(Time::Synchronized(x)) => format!("s{}", x.raw_value()),
+        Some(Time::Unsynchronized(x)) => format!("u{}", x.raw_value()),
+    }
+}
+
+fn info_text(kind: &str, info: HeaderInfo) -> String {
+    let (g, v) = info.variation.to_group_and_var();
+    format!(
+        "{}/g{}v{}/{:02x}/e{}f{}",
+        kind,
+        g,
+        v,
+        info.qualifier.as_u8(),
+        info.is_event as u8,
+        info.has_flags as u8
+    )
+}
+
+fn read_type_text(rt: ReadType) -> &'static str {
+    match rt {
+        ReadType::StartupIntegrity => "integrity",
+        ReadType::Unsolicited => "unsol",
+        ReadType::SinglePoll => "single",
+        ReadType::PeriodicPoll => "poll",
+    }
+}
+
+fn header_text(h: ResponseHeader) -> String {
+    format!(
+        "{:02x}{:02x}{:02x}{:02x}",
+        h.control.to_u8(),
+        if h.function.is_unsolicited() { 0x82u8 } else { 0x81u8 },
+        h.iin.iin1.value,
+        h.iin.iin2.value
+    )
+}
+
+struct Rec;
+
+impl ReadHandler for Rec {
+    fn begin_fragment(
+        &mut self,
+        read_type: ReadType,
+        header: ResponseHeader,
+    ) -> crate::app::MaybeAsync<()> {
+        log(format!(
+            "cb begin {} {}",
+            read_type_text(read_type),
+            header_text(header)
+        ));
+        crate::app::MaybeAsync::ready(())
+    }
+
+    fn end_fragment(
+        &mut self,
+        read_type: ReadType,
+        header: ResponseHeader,
+    ) -> crate::app::MaybeAsync<()> {
+        log(format!(
+            "cb end {} {}",
+            read_type_text(read_type),
+            header_text(header)
+        ));
+        crate::app::MaybeAsync::ready(())
+    }
+
+    fn handle_binary_input(
+        &mut self,
+        info: HeaderInfo,
+        iter: &mut dyn Iterator<Item = (BinaryInput, u16)>,
+    ) {
+        for (m, i) in iter {
+            log(format!(
+                "cb {}/{}={},{:02x},{}",
+                info_text("bi", info),
+                i,
+                m.value as u8,
+                m.flags.value,
+                time_text(m.time)
+            ));
+        }
+    }
+
+    fn handle_double_bit_binary_input(
+        &mut self,
+        info: HeaderInfo,
+        iter: &mut dyn Iterator<Item = (DoubleBitBinaryInput, u16)>,
+    ) {
+        for (m, i) in iter {
+            let v = match m.value {
+                DoubleBit::Intermediate => 0,
+                DoubleBit::DeterminedOff => 1,
+                DoubleBit::DeterminedOn => 2,
+                DoubleBit::Indeterminate => 3,
+            };
+            log(format!(
+                "cb {}/{}={},{:02x},{}",
+                info_text("dbi", info),
+                i,
+                v,
+                m.flags.value,
+                time_text(m.time)
+            ));
+        }
+    }
+
+    fn handle_binary_output_status(
+        &mut self,
+        info: HeaderInfo,
+        iter: &mut dyn Iterator<Item = (BinaryOutputStatus, u16)>,
+    ) {
+        for (m, i) in iter {
+            log(format!(
+                "cb {}/{}={},{:02x},{}",
+                info_text("bos", info),
+                i,
+                m.value as u8,
+                m.flags.value,
+                time_text(m.time)
+            ));
+        }
+    }
+
+    fn handle_counter(&mut self, info: HeaderInfo, iter: &mut dyn Iterator<Item = (Counter, u16)>) {
+        for (m, i) in iter {
+            log(format!(
+                "cb {}/{}={},{:02x},{}",
+                info_text("ctr", info),
+                i,
+                m.value,
+                m.flags.value,
+                time_text(m.time)
+            ));
+        }
+    }
+
+    fn handle_frozen_counter(
+        &mut self,
+        info: HeaderInfo,
+        iter: &mut dyn Iterator<Item = (FrozenCounter, u16)>,
+    ) {
+        for (m, i) in iter {
+            log(format!(
+                "cb {}/{}={},{:02x},{}",
+                info_text("fctr", info),
+                i,
+                m.value,
+                m.flags.value,
+                time_text(m.time)
+            ));
+        }
+    }
+
+    fn handle_analog_input(
+        &mut self,
+        info: HeaderInfo,
+        iter: &mut dyn Iterator<Item = (AnalogInput, u16)>,
+    ) {
+        for (m, i) in iter {
+            log(format!(
+                "cb {}/{}={:016x},{:02x},{}",
+                info_text("ai", info),
+                i,
+                m.value.to_bits(),
+                m.flags.value,
+                time_text(m.time)
+            ));
+        }
+    }
+
+    fn handle_frozen_analog_input(
+        &mut self,
+        info: HeaderInfo,
+        iter: &mut dyn Iterator<Item = (FrozenAnalogInput, u16)>,
+    ) {
+        for (m, i) in iter {
+            log(format!(
+                "cb {}/{}={:016x},{:02x},{}",
+                info_text("fai", info),
+                i,
+                m.value.to_bits(),
+                m.flags.value,
+                time_text(m.time)
+            ));
+        }
+    }
+
+    fn handle_analog_input_dead_band(
+        &mut self,
+        info: HeaderInfo,
+        iter: &mut dyn Iterator<Item = (AnalogInputDeadBand, u16)>,
+    ) {
+        for (m, i) in iter {
+            let v = match m {
+                AnalogInputDeadBand::U16(x) => format!("a{}", x),
+                AnalogInputDeadBand::U32(x) => format!("b{}", x),
+                AnalogInputDeadBand::F32(x) => format!("c{:08x}", x.to_bits()),
+            };
+            log(format!("cb {}/{}={}", info_text("aidb", info), i, v));
+        }
+    }
+
+    fn handle_analog_output_status(
+        &mut self,
+        info: HeaderInfo,
+        iter: &mut dyn Iterator<Item = (AnalogOutputStatus, u16)>,
+    ) {
+        for (m, i) in iter {
+            log(format!(
+                "cb {}/{}={:016x},{:02x},{}",
+                info_text("aos", info),
+                i,
+                m.value.to_bits(),
+                m.flags.value,
+                time_text(m.time)
+            ));
+        }
+    }
+
+    fn handle_analog_output_command_event(
+        &mut self,
+        info: HeaderInfo,
+        iter: &mut dyn Iterator<Item = (AnalogOutputCommandEvent, u16)>,
+    ) {
+        for (m, i) in iter {
+            let v = match m.commanded_value {
+                AnalogCommandValue::I16(x) => format!("a{}", x),
+                AnalogCommandValue::I32(x) => format!("b{}", x),
+                AnalogCommandValue::F32(x) => format!("c{:08x}", x.to_bits()),
+                AnalogCommandValue::F64(x) => format!("d{:016x}", x.to_bits()),
+            };
+            log(format!(
+                "cb {}/{}={},{},{}",
+                info_text("aoce", info),
+                i,
+                v,
+                m.status.as_u8(),
+                time_text(m.time)
+            ));
+        }
+    }
+
+    fn handle_binary_output_command_event(
+        &mut self,
+        info: HeaderInfo,
+        iter: &mut dyn Iterator<Item = (BinaryOutputCommandEvent, u16)>,
+    ) {
+        for (m, i) in iter {
+            log(format!(
+                "cb {}/{}={},{},{}",
+                info_text("boce", info),
+                i,
+                m.commanded_state as u8,
+                m.status.as_u8(),
+                time_text(m.time)
+            ));
+        }
+    }
+
+    fn handle_unsigned_integer(
+        &mut self,
+        info: HeaderInfo,
+        iter: &mut dyn Iterator<Item = (UnsignedInteger, u16)>,
+    ) {
+        for (m, i) in iter {
+            log(format!("cb {}/{}={}", info_text("uint", info), i, m.value));
+        }
+    }
+
+    fn handle_octet_string<'a>(
+        &mut self,
+        info: HeaderInfo,
+        iter: &'a mut dyn Iterator<Item = (&'a [u8], u16)>,
+    ) {
+        for (m, i) in iter {
+            log(format!("cb {}/{}={}", info_text("octet", info), i, hex(m)));
+        }
+    }
+
+    fn handle_device_attribute(&mut self, info: HeaderInfo, _attr: crate::app::attr::AnyAttribute) {
+        log(format!("cb {}/0=attr", info_text("attr", info)));
+    }
+
+    fn handle_abs_time(&mut self, info: HeaderInfo, time: Timestamp) {
+        log(format!(
+            "cb {}/0={}",
+            info_text("abs", info),
+            time.raw_value()
+        ));
+    }
+}
+
+struct NoTime;
+impl AssociationHandler for NoTime {
+    fn get_current_time(&self) -> Option<Timestamp> {
+        None
+    }
+}
+
+fn task_type_text(t: TaskType) -> String {
+    match t {
+        TaskType::UserRead => "user_read".to_string(),
+        TaskType::PeriodicPoll => "periodic_poll".to_string(),
+        TaskType::StartupIntegrity => "startup_integrity".to_string(),
+        TaskType::AutoEventScan => "auto_event_scan".to_string(),
+        TaskType::Command => "command".to_string(),
+        TaskType::ClearRestartBit => "clear_restart".to_string(),
+        TaskType::EnableUnsolicited => "enable_unsol".to_string(),
+        TaskType::DisableUnsolicited => "disable_unsol".to_string(),
+        TaskType::TimeSync => "time_sync".to_string(),
+        TaskType::Restart => "restart".to_string(),
+        TaskType::WriteDeadBands => "write_dead_bands".to_string(),
+        TaskType::GenericEmptyResponse(fc) => format!("empty_response:{}", fc.as_u8()),
+        TaskType::FileRead => "file_read".to_string(),
+        TaskType::FileAuth => "file_auth".to_string(),
+        TaskType::FileOpen => "file_open".to_string(),
+        TaskType::FileWriteBlock => "file_write_block".to_string(),
+        TaskType::FileClose => "file_close".to_string(),
+        TaskType::GetFileInfo => "get_file_info".to_string(),
+    }
+}
+
+pub(crate) fn task_error_text(e: TaskError) -> String {
+    match e {
+        TaskError::TooManyRequests => "too_many_requests".to_string(),
+        TaskError::Link(_) => "link".to_string(),
+        TaskError::Transport => "transport".to_string(),
+        TaskError::RejectedByIin2(iin) => {
+            format!("rejected:{:02x}{:02x}", iin.iin1.value, iin.iin2.value)
+        }
+        TaskError::MalformedResponse(_) => "malformed".to_string(),
+        TaskError::UnexpectedResponseHeaders => "bad_headers".to_string(),
+        TaskError::NonFinWithoutCon => "non_fin_without_con".to_string(),
+        TaskError::NeverReceivedFir => "never_fir".to_string(),
+        TaskError::UnexpectedFir => "unexpected_fir".to_string(),
+        TaskError::MultiFragmentResponse => "multi_fragment".to_string(),
+        TaskError::ResponseTimeout => "timeout".to_string(),
+        TaskError::WriteError => "write_error".to_string(),
+        TaskError::BadEncoding(_) => "bad_encoding".to_string(),
+        TaskError::NoSuchAssociation(_) => "no_association".to_string(),
+        TaskError::NoConnection => "no_connection".to_string(),
+        TaskError::Shutdown => "shutdown".to_string(),
+        TaskError::Disabled => "disabled".to_string(),
+    }
+}
+
+fn command_error_text(e: CommandError) -> String {
+    match e {
+        CommandError::Task(t) => task_error_text(t),
+        CommandError::Response(r) => match r {
+            CommandResponseError::Request(t) => format!("request:{}", task_error_text(t)),
+            CommandResponseError::BadStatus(s) => format!("status:{}", s.as_u8()),
+            CommandResponseError::HeaderCountMismatch => "header_count".to_string(),
+            CommandResponseError::HeaderTypeMismatch => "header_type".to_string(),
+            CommandResponseError::ObjectCountMismatch => "object_count".to_string(),
+            CommandResponseError::ObjectValueMismatch => "object_value".to_string(),
+        },
+    }
+}
+
+fn write_error_text(e: WriteError) -> String {
+    match e {
+        WriteError::Task(t) => task_error_text(t),
+        WriteError::IinError(x) => format!("iin_error:{:02x}", x.value),
+    }
+}
+
+struct Info;
+
+impl AssociationInformation for Info {
+    fn task_start(&mut self, task_type: TaskType, fc: FunctionCode, seq: crate::app::Sequence) {
+        log(format!(
+            "info task_start {} {} {}",
+            task_type_text(task_type),
+            fc.as_u8(),
+            seq.value()
+        ));
+    }
+    fn task_success(&mut self, task_type: TaskType, fc: FunctionCode, seq: crate::app::Sequence) {
+        log(format!(
+            "info task_success {} {} {}",
+            task_type_text(task_type),
+            fc.as_u8(),
+            seq.value()
+        ));
+    }
+    fn task_fail(&mut self, task_type: TaskType, error: TaskError) {
+        log(format!(
+            "info task_fail {} {}",
+            task_type_text(task_type),
+            task_error_text(error)
+        ));
+    }
+    fn unsolicited_response(&mut self, is_duplicate: bool, seq: crate::app::Sequence) {
+        log(format!(
+            "info unsolicited {} {}",
+            is_duplicate as u8,
+            seq.value()
+        ));
+    }
+}
+
+// ---------------------------------------------------------------------------------------------
+// the connection loop
+
+struct Shared {
+    link_up: bool,
+    handle: Option<sfio_tokio_mock_io::Handle>,
+    stopped: bool,
+}
+
+fn run_error_text(e: RunError) -> &'static str {
+    match e {
+        RunError::Stop(StopReason::Disable) => "disable",
+        RunError::Stop(StopReason::Shutdown) => "shutdown",
+        RunError::Link(_) => "link",
+    }
+}
+
+async fn runner(mut task: MasterTask, shared: Rc<RefCell<Shared>>, wake: Rc<tokio::sync::Notify>) {
+    loop {
+        // no connection: messages are processed with is_connected == false
+        loop {
+            if task.enabled() == Enabled::Yes && shared.borrow().link_up {
+                break;
+            }
+            tokio::select! {
+                biased;
+                r = task.process_next_message() => {
+                    if let Err(StopReason::Shutdown) = r {
+                        log("chan stopped".to_string());
+                        shared.borrow_mut().stopped = true;
+                        return;
+                    }
+                }
+                _ = wake.notified() => {}
+            }
+        }
+        let (io, handle) = sfio_tokio_mock_io::mock();
+        shared.borrow_mut().handle = Some(handle);
+        let mut io = PhysLayer::Mock(io);
+        log("chan connected".to_string());
+        let err = task.run(&mut io).await;
+        log(format!("chan run_end {}", run_error_text(err)));
+        shared.borrow_mut().handle = None;
+        drop(io);
+        match err {
+            RunError::Stop(StopReason::Shutdown) => {
+                log("chan stopped".to_string());
+                shared.borrow_mut().stopped = true;
+                return;
+            }
+            RunError::Link(_) => {
+                // the script decides when the link comes back
+                shared.borrow_mut().link_up = false;
+            }
+            RunError::Stop(StopReason::Disable) => {}
+        }
+    }
+}
+
+// ---------------------------------------------------------------------------------------------
+// requests
+
+fn variation(g: u8, v: u8) -> Variation {
+    Variation::lookup(g, v).expect("unknown variation in script")
+}
+
+/// object headers of a request: qualifiers 06, 00, 01, 07, 08
+fn read_headers(bytes: &[u8]) -> Vec<ReadHeader> {
+    let mut out = Vec::new();
+    let mut i = 0;
+    while i < bytes.len() {
+        let var = variation(bytes[i], bytes[i + 1]);
+        let q = bytes[i + 2];
+        i += 3;
+        match q {
+            0x06 => out.push(ReadHeader::all_objects(var)),
+            0x00 => {
+                out.push(ReadHeader::one_byte_range(var, bytes[i], bytes[i + 1]));
+                i += 2;
+            }
+            0x01 => {
+                out.push(ReadHeader::two_byte_range(
+                    var,
+                    u16::from_le_bytes([bytes[i], bytes[i + 1]]),
+                    u16::from_le_bytes([bytes[i + 2], bytes[i + 3]]),
+                ));
+                i += 4;
+            }
+            0x07 => {
+                out.push(ReadHeader::one_byte_limited_count(var, bytes[i]));
+                i += 1;
+            }
+            0x08 => {
+                out.push(ReadHeader::two_byte_limited_count(
+                    var,
+                    u16::from_le_bytes([bytes[i], bytes[i + 1]]),
+                ));
+                i += 2;
+            }
+            _ => panic!("unsupported qualifier in script"),
+        }
+    }
+    out
+}
+
+fn classes(mask: u64) -> Classes {
+    Classes::new(
+        mask & 1 != 0,
+        EventClasses::new(mask & 2 != 0, mask & 4 != 0, mask & 8 != 0),
+    )
+}
+
+fn event_classes(mask: u64) -> EventClasses {
+    EventClasses::new(mask & 1 != 0, mask & 2 != 0, mask & 4 != 0)
+}
+
+/// `<g>.<v>/<8|16>/<idx>=<hex>,<idx>=<hex>` -> (group, var, wide, [(index, object bytes)])
+fn parse_hdr(tok: &str) -> (u8, u8, bool, Vec<(u16, Vec<u8>)>) {
+    let parts: Vec<&str> = tok.split('/').collect();
+    assert!(parts.len() == 3, "bad header token");
+    let (g, v) = parts[0].split_once('.').expect("bad variation");
+    let wide = match parts[1] {
+        "8" => false,
+        "16" => true,
+        _ => panic!("bad index width"),
+    };
+    let mut items = Vec::new();
+    if parts[2] != "-" {
+        for it in parts[2].split(',') {
+            let (i, h) = it.split_once('=').expect("bad item");
+            items.push((i.parse::<u16>().expect("bad index"), unhex(h)));
+        }
+    }
+    (g.parse().unwrap(), v.parse().unwrap(), wide, items)
+}
+
+fn read_obj<T: FixedSize>(bytes: &[u8]) -> T {
+    assert!(bytes.len() == T::SIZE as usize, "object size");
+    let mut cur = scursor::ReadCursor::new(bytes);
+    T::read(&mut cur).expect("object read")
+}
+
+fn add_cmd<T>(b: &mut CommandBuilder, wide: bool, items: &[(u16, Vec<u8>)])
+where
+    T: FixedSize,
+    CommandBuilder: CommandSupport<T>,
+{
+    for (i, bytes) in items {
+        let obj: T = read_obj(bytes);
+        if wide {
+            b.add_u16(obj, *i);
+        } else {
+            b.add_u8(obj, *i as u8);
+        }
+    }
+    b.finish_header();
+}
+
+fn command_headers(toks: &[String]) -> CommandHeaders {
+    let mut b = CommandBuilder::new();
+    for t in toks {
+        let (g, v, wide, items) = parse_hdr(t);
+        match (g, v) {
+            (12, 1) => add_cmd::<Group12Var1>(&mut b, wide, &items),
+            (41, 1) => add_cmd::<Group41Var1>(&mut b, wide, &items),
+            (41, 2) => add_cmd::<Group41Var2>(&mut b, wide, &items),
+            (41, 3) => add_cmd::<Group41Var3>(&mut b, wide, &items),
+            (41, 4) => add_cmd::<Group41Var4>(&mut b, wide, &items),
+            _ => panic!("not a command variation"),
+        }
+    }
+    b.build()
+}
+
+fn dead_band_headers(toks: &[String]) -> Vec<DeadBandHeader> {
+    let mut out = Vec::new();
+    for t in toks {
+        let (g, v, wide, items) = parse_hdr(t);
+        assert!(g == 34);
+        let u16v = |b: &Vec<u8>| u16::from_le_bytes([b[0], b[1]]);
+        let u32v = |b: &Vec<u8>| u32::from_le_bytes([b[0], b[1], b[2], b[3]]);
+        let h = match (v, wide) {
+            (1, false) => DeadBandHeader::group34_var1_u8(
+                items.iter().map(|(i, b)| (*i as u8, u16v(b))).collect(),
+            ),
+            (1, true) => {
+                DeadBandHeader::group34_var1_u16(items.iter().map(|(i, b)| (*i, u16v(b))).collect())
+            }
+            (2, false) => DeadBandHeader::group34_var2_u8(
+                items.iter().map(|(i, b)| (*i as u8, u32v(b))).collect(),
+            ),
+            (2, true) => {
+                DeadBandHeader::group34_var2_u16(items.iter().map(|(i, b)| (*i, u32v(b))).collect())
+            }
+            (3, false) => DeadBandHeader::group34_var3_u8(
+                items
+                    .iter()
+                    .map(|(i, b)| (*i as u8, f32::from_bits(u32v(b))))
+                    .collect(),
+            ),
+            (3, true) => DeadBandHeader::group34_var3_u16(
+                items
+                    .iter()
+                    .map(|(i, b)| (*i, f32::from_bits(u32v(b))))
+                    .collect(),
+            ),
+            _ => panic!("bad dead-band variation"),
+        };
+        out.push(h);
+    }
+    out
+}
+
+fn spawn_waiter<T: 'static>(
+    tok: String,
+    rx: tokio::sync::oneshot::Receiver<T>,
+    text: impl FnOnce(T) -> String + 'static,
+) {
+    tokio::task::spawn_local(async move {
+        match rx.await {
+            Ok(v) => log(format!("res {} {}", tok, text(v))),
+            // the promise was dropped without being completed (the public API turns this into
+            // TaskError::Shutdown)
+            Err(_) => log(format!("res {} dropped", tok)),
+        }
+    });
+}
+
+fn user_task(op: &[String]) -> Task {
+    let tok = op[1].clone();
+    match op[2].as_str() {
+        "read" => {
+            let req = if let Some(m) = op[3].strip_prefix("class:") {
+                ReadRequest::ClassScan(classes(m.parse().unwrap()))
+            } else {
+                let h = op[3].strip_prefix("hdr:").expect("read hdr:<hex>");
+                ReadRequest::MultipleHeader(read_headers(&unhex(h)))
+            };
+            let (p, rx) = Promise::one_shot();
+            spawn_waiter(tok, rx, |r: Result<(), TaskError>| match r {
+                Ok(()) => "ok".to_string(),
+                Err(e) => format!("err {}", task_error_text(e)),
+            });
+            SingleReadTask::new(req, p).into()
+        }
+        "sbo" | "do" => {
+            let mode = if op[2] == "sbo" {
+                CommandMode::SelectBeforeOperate
+            } else {
+                CommandMode::DirectOperate
+            };
+            let (p, rx) = Promise::one_shot();
+            spawn_waiter(tok, rx, |r: Result<(), CommandError>| match r {
+                Ok(()) => "ok".to_string(),
+                Err(e) => format!("err {}", command_error_text(e)),
+            });
+            CommandTask::from_mode(mode, command_headers(&op[3..]), p).into()
+        }
+        "deadband" => {
+            let (p, rx) = Promise::one_shot();
+            spawn_waiter(tok, rx, |r: Result<(), WriteError>| match r {
+                Ok(()) => "ok".to_string(),
+                Err(e) => format!("err {}", write_error_text(e)),
+            });
+            WriteDeadBandsTask::new(dead_band_headers(&op[3..]), p).into()
+        }
+        "cold_restart" | "warm_restart" => {
+            let rt = if op[2] == "cold_restart" {
+                RestartType::ColdRestart
+            } else {
+                RestartType::WarmRestart
+            };
+            let (p, rx) = Promise::one_shot();
+            spawn_waiter(tok, rx, |r: Result<Duration, TaskError>| match r {
+                Ok(d) => format!("ok {}", d.as_millis()),
+                Err(e) => format!("err {}", task_error_text(e)),
+            });
+            RestartTask::new(rt, p).into()
+        }
+        "empty" => {
+            let fc = FunctionCode::from(op[3].parse::<u8>().unwrap()).expect("function code");
+            let h = op[4].strip_prefix("hdr:").expect("empty <fc> hdr:<hex>");
+            let mut headers = Headers::new();
+            for rh in read_headers(&unhex(h)) {
+                headers = match rh {
+                    ReadHeader::AllObjects(x) => headers.add_all_objects(x.variation),
+                    ReadHeader::Range8(x) => headers.add_range_8(x.variation, x.start, x.stop),
+                    ReadHeader::Range16(x) => headers.add_range_16(x.variation, x.start, x.stop),
+                    ReadHeader::LimitedCount8(x) => {
+                        headers.add_one_byte_limited_count(x.variation, x.count)
+                    }
+                    ReadHeader::LimitedCount16(x) => {
+                        headers.add_two_byte_limited_count(x.variation, x.count)
+                    }
+                };
+            }
+            let (p, rx) = Promise::one_shot();
+            spawn_waiter(tok, rx, |r: Result<(), WriteError>| match r {
+                Ok(()) => "ok".to_string(),
+                Err(e) => format!("err {}", write_error_text(e)),
+            });
+            EmptyResponseTask::new(fc, headers, p).into()
+        }
+        "link_status" => {
+            let (p, rx) = Promise::one_shot();
+            spawn_waiter(tok, rx, |r: Result<(), TaskError>| match r {
+                Ok(()) => "ok".to_string(),
+                Err(e) => format!("err {}", task_error_text(e)),
+            });
+            Task::LinkStatus(p)
+        }
+        x => panic!("bad user request {}", x),
+    }
+}
+
+/// what the REAL parser says about the object section of a received fragment
+fn parser_verdict(data: &[u8]) -> &'static str {
+    match ParsedFragment::parse(ParseOptions::default(), data) {
+        Err(_) => "none",
+        Ok(f) => match f.objects {
+            Ok(_) => "ok",
+            Err(_) => "bad",
+        },
+    }
+}
+
+async fn settle() {
+    tokio::time::sleep(Duration::from_millis(1)).await;
+    for _ in 0..16 {
+        tokio::task::yield_now().await;
+    }
+}
+
+/// lines of one op: true order, promise completions moved to the end
+fn flush(obs: &mut Vec<String>) {
+    let lines = vt::drain();
+    let is_res = |l: &String| l.split(' ').nth(1) == Some("res");
+    for l in lines.iter().filter(|l| !is_res(l)) {
+        obs.push(l.clone());
+    }
+    for l in lines.iter().filter(|l| is_res(l)) {
+        obs.push(l.clone());
+    }
+}
 
 pub(crate) async fn run_master(script: &Script, obs: &mut Vec<String>) {
-    let _ = script;
-    obs.push("unimplemented".to_string());
+    crate::transport::mock::reader::verif_hook::clear();
+    vt::start();
+
+    let outstation = EndpointAddress::try_new(script.cfg_u64("addr", 1024) as u16).unwrap();
+    let timeout = Timeout::from_millis(script.cfg_u64("timeout", 1000)).unwrap();
+
+    let mut config = AssociationConfig::quiet();
+    config.response_timeout = timeout;
+    config.disable_unsol_classes = event_classes(script.cfg_u64("disable_unsol", 0));
+    config.enable_unsol_classes = event_classes(script.cfg_u64("enable_unsol", 0));
+    config.startup_integrity_classes = classes(script.cfg_u64("integrity", 0));
+    config.auto_tasks_retry_strategy = RetryStrategy::new(
+        Duration::from_millis(script.cfg_u64("retry_min", 1000)),
+        Duration::from_millis(script.cfg_u64("retry_max", 10000)),
+    );
+    config.max_queued_user_requests = script.cfg_u64("maxq", 16) as usize;
+
+    let task_config = MasterChannelConfig {
+        master_address: EndpointAddress::try_new(1).unwrap(),
+        decode_level: decode_level(script),
+        tx_buffer_size: BufferSize::new(script.cfg_u64("txsize", 249) as usize).unwrap(),
+        rx_buffer_size: BufferSize::min(),
+    };
+
+    let (mut tx, rx) = crate::util::channel::request_channel();
+    let mut task = MasterTask::new(
+        Enabled::Yes,
+        LinkModes::serial(),
+        ParseOptions::default(),
+        task_config,
+        rx,
+    );
+    task.set_rx_frame_info(FrameInfo::new(
+        outstation,
+        None,
+        FrameType::Data,
+        PhysAddr::None,
+    ));
+
+    let shared = Rc::new(RefCell::new(Shared {
+        link_up: true,
+        handle: None,
+        stopped: false,
+    }));
+    let wake = Rc::new(tokio::sync::Notify::new());
+    let runner_task = tokio::task::spawn_local(runner(task, shared.clone(), wake.clone()));
+
+    // the association, added through the same message the public API sends
+    let (promise, reply) = Promise::one_shot();
+    tx.send(Message::Master(MasterMsg::AddAssociation(
+        FragmentAddr {
+            link: outstation,
+            phys: PhysAddr::None,
+        },
+        config,
+        Box::new(Rec),
+        Box::new(NoTime),
+        Box::new(Info),
+        promise,
+    )))
+    .await
+    .expect("master task gone");
+    reply.await.expect("no reply").expect("association refused");
+    settle().await;
+    flush(obs);
+
+    let mut tx = Some(tx);
+    for op in &script.ops {
+        if shared.borrow().stopped || tx.is_none() {
+            log("ignored".to_string());
+            flush(obs);
+            continue;
+        }
+        match op[0].as_str() {
+            "rx" => {
+                let from = EndpointAddress::raw(op[1].parse::<u16>().unwrap());
+                let data = unhex(&op[2]);
+                log(format!("pv {}", parser_verdict(&data)));
+                let mut sh = shared.borrow_mut();
+                match sh.handle.as_mut() {
+                    Some(h) => {
+                        crate::transport::mock::reader::verif_hook::push_frame_info(
+                            FrameInfo::new(from, None, FrameType::Data, PhysAddr::None),
+                        );
+                        h.read(&data);
+                    }
+                    None => log("rx no_connection".to_string()),
+                }
+            }
+            "sleep" => {
+                tokio::time::sleep(Duration::from_millis(op[1].parse::<u64>().unwrap())).await;
+            }
+            "user" => {
+                let task = user_task(op);
+                tx.as_mut()
+                    .unwrap()
+                    .send(Message::Association(AssociationMsg {
+                        address: outstation,
+                        details: AssociationMsgType::QueueTask(task),
+                    }))
+                    .await
+                    .expect("master task gone");
+            }
+            "disable" => {
+                tx.as_mut()
+                    .unwrap()
+                    .send(Message::Master(MasterMsg::EnableCommunication(Enabled::No)))
+                    .await
+                    .expect("master task gone");
+            }
+            "enable" => {
+                tx.as_mut()
+                    .unwrap()
+                    .send(Message::Master(MasterMsg::EnableCommunication(
+                        Enabled::Yes,
+                    )))
+                    .await
+                    .expect("master task gone");
+            }
+            "remove" => {
+                tx.as_mut()
+                    .unwrap()
+                    .send(Message::Master(MasterMsg::RemoveAssociation(outstation)))
+                    .await
+                    .expect("master task gone");
+            }
+            "drop_io" => {
+                let mut sh = shared.borrow_mut();
+                match sh.handle.as_mut() {
+                    Some(h) => h.read_error(std::io::ErrorKind::ConnectionReset),
+                    None => {
+                        sh.link_up = false;
+                    }
+                }
+            }
+            "connect" => {
+                shared.borrow_mut().link_up = true;
+                wake.notify_one();
+            }
+            "shutdown" => {
+                // every handle of the public API holds a clone of this sender; dropping the
+                // last one is how a master is shut down
+                tx = None;
+            }
+            x => panic!("bad op {}", x),
+        }
+        settle().await;
+        flush(obs);
+    }
+    vt::stop();
+    crate::transport::mock::reader::verif_hook::clear();
+    runner_task.abort();
+    let _ = runner_task.await;
+    obs.push("end".to_string());
 }
